@@ -88,6 +88,12 @@ FreshGh    == [acked |-> [k \in Keys |-> 0],      \* greatest |version| acknowle
                treeOnly |-> {},                   \* keys whose last version change wrote no record (C02)
                c18bad |-> FALSE,                  \* a pass ended with a superseded record left in its range
                c18dup |-> FALSE,                  \* ... or with a record twice
+               crashed |-> FALSE,                 \* the last stop of the process was a kill
+               durAt |-> [k \in Keys |-> 0],      \* newest record of k intact on disk at the kill (0 = none)
+               nrecsAt |-> 0,                     \* records built before the kill
+               refAt |-> [k \in Keys |-> NoRef],  \* reference map at the kill
+               gcAt |-> FALSE,                    \* the kill fell inside a GC pass
+               c06bad |-> FALSE, c07bad |-> FALSE,
                fatal |-> FALSE]                   \* the code would have called logger.Fatalf
 
 InitMem(c0) ==
@@ -155,6 +161,19 @@ ScanAll(f, o) ==
   IF n[1] = 0 THEN <<>> ELSE <<[rid |-> n[1], off |-> n[2]]>> \o ScanAll(f, n[3])
 
 TotalWbuf == \E c \in Chunks : Len(chk[c].wbuf) > 0     \* ds.wbufSize > 0
+
+-----------------------------------------------------------------------------
+\* does a read result r agree with the reference entry e of key k?
+\* level 1: value, flags, liveness AND version (C01)
+\* level 2: version only for live keys (C02: tombstones may vanish on rebuild)
+\* level 3: value, flags, liveness only (C13: colliding keys)
+Agrees(k, r, e, level) ==
+  IF e.ver = 0 THEN r.res = "miss"
+  ELSE IF e.ver < 0
+    THEN r.res = "miss" \/ (r.res = "hit" /\ r.ver < 0 /\ recs[r.rid].key = k /\ (level > 1 \/ r.ver = e.ver))
+  ELSE /\ r.res = "hit" /\ r.ver > 0
+       /\ recs[r.rid].key = k /\ recs[r.rid].val = e.val /\ recs[r.rid].flag = e.flag
+       /\ (level = 3 \/ r.ver = e.ver)
 
 -----------------------------------------------------------------------------
 (* Hint buffers (store/hint.go).                                           *)
@@ -635,113 +654,6 @@ Exit ==
   /\ UNCHANGED <<conf, disk, recs, ref>>
 
 -----------------------------------------------------------------------------
-(* Recovery: Bucket.open as a function of the disk group.                  *)
-
-\* replay of one hint file into the tree (updateHtreeFromHint).  Items are visited in
-\* (hash, key) order; ver > 0 sets the slot of the HASH, ver < 0 removes it -- so for a
-\* group of colliding keys the key of greatest rank decides.
-ApplyFile(t, c, items) ==
-  [h \in HashIds |->
-     LET S == {k \in DOMAIN items : HashOf(k) = h} IN
-     IF S = {} THEN t[h]
-     ELSE LET k == CHOOSE k \in S : \A k2 \in S : conf.rank[k] >= conf.rank[k2]
-              it == items[k]
-          IN IF it.ver > 0 THEN [c |-> c, off |-> it.off, ver |-> it.ver, vh |-> it.vh] ELSE NoSlot]
-
-\* loadHintsByChunk: the consecutive, present hint files of chunk c; the rest is removed
-ValidHintPrefix(fs) ==
-  LET S == {n \in 0..Len(fs) : \A i \in 1..n : fs[i] # NoFile} IN SubSeq(fs, 1, MaxOf(S, 0))
-
-\* buildHintFromData: feed scanned records into the hint buffers (setItem + inline trydump)
-RECURSIVE FeedHints(_, _, _, _)
-FeedHints(h, d, c, rs) ==
-  IF rs = <<>> THEN [h |-> h, d |-> d]
-  ELSE LET r == recs[Head(rs).rid]
-           it == [off |-> Head(rs).off, ver |-> r.ver, vh |-> IF r.ver > 0 THEN r.vh ELSE 0]
-           s1 == HintSetItem(h.splits[c], r.key, it, r.nblk)
-           h1 == [h EXCEPT !.splits[c] = s1.splits, !.lastTS[c] = TRUE]
-           td == IF s1.rotated THEN TryDump(h1, d, c, FALSE) ELSE [h |-> h1, d |-> d]
-           h2 == [td.h EXCEPT !.maxChunk = Max2(@, c)]
-       IN FeedHints(h2, td.d, c, Tail(rs))
-
-\* checkHintWithData(c): returns [h, d]
-CheckHintWithData(h, d, c) ==
-  LET size == IF d.exists[c] THEN Len(d.data[c]) ELSE 0 IN
-  IF size = 0 THEN [h |-> h, d |-> [d EXCEPT !.hintf[c] = <<>>]]
-  ELSE LET fs == ValidHintPrefix(d.hintf[c])
-           d1 == [d EXCEPT !.hintf[c] = fs]
-           covered == MaxOf({fs[i].datasize : i \in 1..Len(fs)}, 0)
-           filesp == [i \in 1..Len(fs) |-> [items |-> <<>>, maxoff |-> fs[i].datasize, isfile |-> TRUE]]
-           h1 == [h EXCEPT !.splits[c] = filesp \o <<FreshSplit>>]
-       IN IF covered < size
-            THEN LET fd == FeedHints(h1, d1, c, ScanAll(d.data[c], covered)) IN
-                 TryDump(fd.h, fd.d, c, TRUE)
-            ELSE [h |-> h1, d |-> d1]
-
-\* the per-chunk loop of open() for chunks i..MaxChunk; a = [h, d, t]
-RECURSIVE OpenLoop(_, _, _)
-OpenLoop(a, i, tid) ==
-  IF i > MaxChunk THEN a
-  ELSE LET r == CheckHintWithData(a.h, a.d, i)
-           nfile == Len(r.h.splits[i]) - 1
-           startsp == IF i = tid[1] THEN tid[2] + 1 ELSE 0
-           RECURSIVE Replay(_, _)
-           Replay(t, j) == IF j >= nfile THEN t ELSE Replay(ApplyFile(t, i, r.d.hintf[i][j + 1].items), j + 1)
-       IN IF startsp >= nfile
-            THEN OpenLoop([h |-> r.h, d |-> r.d, t |-> a.t], i + 1, tid)
-            ELSE OpenLoop([h |-> [r.h EXCEPT !.maxDumped = <<i, startsp + nfile - 1>>], d |-> r.d,
-                           t |-> Replay(a.t, 0)], i + 1, tid)
-
-RECURSIVE BgLoop(_, _, _)       \* the background re-check of the chunks below the tree id
-BgLoop(a, i, hi) == IF i >= hi THEN a ELSE LET r == CheckHintWithData(a.h, a.d, i) IN BgLoop([a EXCEPT !.h = r.h, !.d = r.d], i + 1, hi)
-
-Recover(d) ==
-  LET E == {c \in Chunks : d.exists[c]}
-      maxdata == MaxOf(E, -1)
-      valid == {t \in d.treef : t.id[1] <= maxdata}
-      best == IF valid = {} THEN [id |-> NoId, slots |-> [h \in HashIds |-> NoSlot]]
-              ELSE CHOOSE t \in valid : \A u \in valid : IdGE(t.id, u.id)
-      d0 == [d EXCEPT !.treef = IF valid = {} THEN {} ELSE {best}]
-      h0 == [FreshHm EXCEPT !.maxDumped = best.id]
-      a1 == OpenLoop([h |-> h0, d |-> d0, t |-> best.slots], best.id[1], best.id)
-      a2 == BgLoop(a1, 0, best.id[1])
-      dumpnow == maxdata >= 0 /\ a2.d.treef = {} /\ IdGE(a2.h.maxDumped, best.id)
-      tid == IF dumpnow THEN a2.h.maxDumped ELSE best.id
-      d3 == IF dumpnow THEN [a2.d EXCEPT !.treef = {[id |-> tid, slots |-> a2.t]}] ELSE a2.d
-  IN [head |-> maxdata + 1,
-      chk |-> [c \in Chunks |-> IF d.exists[c]
-                 THEN [wHead |-> Len(d.data[c]), size |-> Len(d.data[c]), rewriting |-> FALSE, wbuf |-> <<>>]
-                 ELSE FreshChunk],
-      tree |-> a2.t, hm |-> a2.h, disk |-> d3,
-      ctab |-> IF d.hasctab THEN d.ctabf ELSE <<>>,
-      bk |-> [treeID |-> tid, nextgc |-> IF d.nextgcf >= 0 THEN d.nextgcf ELSE 0]]
-
-Open ==
-  /\ ~up
-  /\ LET r == Recover(disk) IN
-     /\ up' = TRUE /\ head' = r.head /\ chk' = r.chk /\ tree' = r.tree /\ hm' = r.hm
-     /\ disk' = r.disk /\ ctab' = r.ctab /\ bk' = r.bk
-     \* C02: "versions of deleted keys are not compared (tombstones are intentionally dropped
-     \* when the tree is rebuilt)": for a DELETED key the reference adopts whatever version
-     \* memory the recovered tree kept (the dump keeps tombstone slots, a rebuild forgets them).
-     /\ ref' = [k \in Keys |->
-                 IF ref[k].ver >= 0
-                   THEN (IF k \in gh.treeOnly /\ r.tree[HashOf(k)].ver > 0
-                           THEN [ref[k] EXCEPT !.ver = r.tree[HashOf(k)].ver] ELSE ref[k])
-                 ELSE LET sl == r.tree[HashOf(k)] IN
-                      IF sl = NoSlot THEN NoRef
-                      ELSE IF sl.ver < 0 THEN [ref[k] EXCEPT !.ver = sl.ver] ELSE ref[k]]
-     /\ gh' = [gh EXCEPT !.treeOnly = {}]
-  /\ UNCHANGED <<conf, gc, lock, pc, loc, recs>>
-
-\* between Exit and Open the environment may delete index files: they are caches (C02)
-RmTreeDumps == /\ ~up /\ disk.treef # {} /\ disk' = [disk EXCEPT !.treef = {}]
-               /\ UNCHANGED <<conf, up, head, chk, tree, hm, ctab, bk, gc, lock, pc, loc, recs, ref, gh>>
-RmHint(c, j) == /\ ~up /\ Len(disk.hintf[c]) > j /\ disk.hintf[c][j + 1] # NoFile
-                /\ disk' = [disk EXCEPT !.hintf[c][j + 1] = NoFile]
-                /\ UNCHANGED <<conf, up, head, chk, tree, hm, ctab, bk, gc, lock, pc, loc, recs, ref, gh>>
-
------------------------------------------------------------------------------
 (* Garbage collection: HStore.GC / GCMgr.gc (store/gc.go).  GC takes no    *)
 (* write lock; every step below is one short critical section or one       *)
 (* file-system mutation of the code.                                       *)
@@ -967,6 +879,186 @@ GCStep == G_Register \/ G_Before \/ G_Dst \/ G_Src \/ G_Next \/ G_DstSwitch \/ G
           \/ G_RepointGet \/ G_RepointSet \/ G_HintSet \/ G_SrcEnd \/ G_End
 
 -----------------------------------------------------------------------------
+(* Recovery: Bucket.open as a function of the disk group.                  *)
+
+\* replay of one hint file into the tree (updateHtreeFromHint).  Items are visited in
+\* (hash, key) order; ver > 0 sets the slot of the HASH, ver < 0 removes it -- so for a
+\* group of colliding keys the key of greatest rank decides.
+ApplyFile(t, c, items) ==
+  [h \in HashIds |->
+     LET S == {k \in DOMAIN items : HashOf(k) = h} IN
+     IF S = {} THEN t[h]
+     ELSE LET k == CHOOSE k \in S : \A k2 \in S : conf.rank[k] >= conf.rank[k2]
+              it == items[k]
+          IN IF it.ver > 0 THEN [c |-> c, off |-> it.off, ver |-> it.ver, vh |-> it.vh] ELSE NoSlot]
+
+\* loadHintsByChunk: the consecutive, present hint files of chunk c; the rest is removed
+ValidHintPrefix(fs) ==
+  LET S == {n \in 0..Len(fs) : \A i \in 1..n : fs[i] # NoFile} IN SubSeq(fs, 1, MaxOf(S, 0))
+
+\* buildHintFromData: feed scanned records into the hint buffers (setItem + inline trydump)
+RECURSIVE FeedHints(_, _, _, _)
+FeedHints(h, d, c, rs) ==
+  IF rs = <<>> THEN [h |-> h, d |-> d]
+  ELSE LET r == recs[Head(rs).rid]
+           it == [off |-> Head(rs).off, ver |-> r.ver, vh |-> IF r.ver > 0 THEN r.vh ELSE 0]
+           s1 == HintSetItem(h.splits[c], r.key, it, r.nblk)
+           h1 == [h EXCEPT !.splits[c] = s1.splits, !.lastTS[c] = TRUE]
+           td == IF s1.rotated THEN TryDump(h1, d, c, FALSE) ELSE [h |-> h1, d |-> d]
+           h2 == [td.h EXCEPT !.maxChunk = Max2(@, c)]
+       IN FeedHints(h2, td.d, c, Tail(rs))
+
+\* checkHintWithData(c): returns [h, d]
+CheckHintWithData(h, d, c) ==
+  LET size == IF d.exists[c] THEN Len(d.data[c]) ELSE 0 IN
+  IF size = 0 THEN [h |-> h, d |-> [d EXCEPT !.hintf[c] = <<>>]]
+  ELSE LET fs == ValidHintPrefix(d.hintf[c])
+           d1 == [d EXCEPT !.hintf[c] = fs]
+           covered == MaxOf({fs[i].datasize : i \in 1..Len(fs)}, 0)
+           filesp == [i \in 1..Len(fs) |-> [items |-> <<>>, maxoff |-> fs[i].datasize, isfile |-> TRUE]]
+           h1 == [h EXCEPT !.splits[c] = filesp \o <<FreshSplit>>]
+       IN IF covered < size
+            THEN LET fd == FeedHints(h1, d1, c, ScanAll(d.data[c], covered)) IN
+                 TryDump(fd.h, fd.d, c, TRUE)
+            ELSE [h |-> h1, d |-> d1]
+
+\* the per-chunk loop of open() for chunks i..MaxChunk; a = [h, d, t]
+RECURSIVE OpenLoop(_, _, _)
+OpenLoop(a, i, tid) ==
+  IF i > MaxChunk THEN a
+  ELSE LET r == CheckHintWithData(a.h, a.d, i)
+           nfile == Len(r.h.splits[i]) - 1
+           startsp == IF i = tid[1] THEN tid[2] + 1 ELSE 0
+           RECURSIVE Replay(_, _)
+           Replay(t, j) == IF j >= nfile THEN t ELSE Replay(ApplyFile(t, i, r.d.hintf[i][j + 1].items), j + 1)
+       IN IF startsp >= nfile
+            THEN OpenLoop([h |-> r.h, d |-> r.d, t |-> a.t], i + 1, tid)
+            ELSE OpenLoop([h |-> [r.h EXCEPT !.maxDumped = <<i, startsp + nfile - 1>>], d |-> r.d,
+                           t |-> Replay(a.t, 0)], i + 1, tid)
+
+RECURSIVE BgLoop(_, _, _)       \* the background re-check of the chunks below the tree id
+BgLoop(a, i, hi) == IF i >= hi THEN a ELSE LET r == CheckHintWithData(a.h, a.d, i) IN BgLoop([a EXCEPT !.h = r.h, !.d = r.d], i + 1, hi)
+
+Recover(d) ==
+  LET E == {c \in Chunks : d.exists[c]}
+      maxdata == MaxOf(E, -1)
+      valid == {t \in d.treef : t.id[1] <= maxdata}
+      best == IF valid = {} THEN [id |-> NoId, slots |-> [h \in HashIds |-> NoSlot]]
+              ELSE CHOOSE t \in valid : \A u \in valid : IdGE(t.id, u.id)
+      d0 == [d EXCEPT !.treef = IF valid = {} THEN {} ELSE {best}]
+      h0 == [FreshHm EXCEPT !.maxDumped = best.id]
+      a1 == OpenLoop([h |-> h0, d |-> d0, t |-> best.slots], best.id[1], best.id)
+      a2 == BgLoop(a1, 0, best.id[1])
+      dumpnow == maxdata >= 0 /\ a2.d.treef = {} /\ IdGE(a2.h.maxDumped, best.id)
+      tid == IF dumpnow THEN a2.h.maxDumped ELSE best.id
+      d3 == IF dumpnow THEN [a2.d EXCEPT !.treef = {[id |-> tid, slots |-> a2.t]}] ELSE a2.d
+  IN [head |-> maxdata + 1,
+      chk |-> [c \in Chunks |-> IF d.exists[c]
+                 THEN [wHead |-> Len(d.data[c]), size |-> Len(d.data[c]), rewriting |-> FALSE, wbuf |-> <<>>]
+                 ELSE FreshChunk],
+      tree |-> a2.t, hm |-> a2.h, disk |-> d3,
+      ctab |-> IF d.hasctab THEN d.ctabf ELSE <<>>,
+      bk |-> [treeID |-> tid, nextgc |-> IF d.nextgcf >= 0 THEN d.nextgcf ELSE 0]]
+
+-----------------------------------------------------------------------------
+(* Process kill (SIGKILL): completed writes survive, memory and every      *)
+(* goroutine are gone.  Crash is enabled in EVERY state, i.e. between any  *)
+(* two actions; a kill in the middle of a data write leaves a strict       *)
+(* prefix of its blocks (CrashTornFlush / CrashTornCopy).                  *)
+
+\* newest record of key k whose blocks are all intact somewhere on disk image d
+DurableOf(d, k) ==
+  MaxOf({i \in 1..Len(recs) : recs[i].key = k /\ \E c \in Chunks : d.exists[c] /\
+            \E o \in 0..(Len(d.data[c]) - 1) : ReadAtSeq(d.data[c], o) = i}, 0)
+
+CrashWith(d) ==
+  /\ up /\ DeadMem
+  /\ disk' = d
+  /\ gh' = [gh EXCEPT !.crashed = TRUE, !.durAt = [k \in Keys |-> DurableOf(d, k)], !.nrecsAt = Len(recs),
+                      !.refAt = ref, !.gcAt = pc["gc"] # "idle"]
+  /\ UNCHANGED <<conf, recs, ref>>
+
+Crash == CrashWith(disk)
+
+\* kill inside dataChunk.flush: only the first m blocks of the batch reached the file
+CrashTornFlush ==
+  \E f \in FlushProcs : pc[f] = "f_write" /\
+    LET c == loc[f].chunk
+        blocks == BlocksOfSeq(SubSeq(chk[c].wbuf, 1, loc[f].n))
+    IN \E m \in 1..(Len(blocks) - 1) : CrashWith([disk EXCEPT !.data[c] = @ \o SubSeq(blocks, 1, m)])
+
+\* kill inside AppendRecordGC: only the first m blocks of the relocated record were written
+CrashTornCopy ==
+  pc["gc"] = "g_copy" /\
+    LET d == gc.dst o == chk[d].wHead n == recs[gc.rid].nblk
+        full == Overlay(disk.data[d], o, gc.rid)
+    IN \E m \in 1..(n - 1) :
+         CrashWith([disk EXCEPT !.data[d] = [i \in 1..Max2(Len(disk.data[d]), o + m) |->
+                                               IF i > o /\ i <= o + m THEN full[i]
+                                               ELSE IF i <= Len(disk.data[d]) THEN disk.data[d][i] ELSE [rid |-> 0, i |-> 0]]])
+
+\* a data file ends inside a record: open() refuses to start ("fail to start for bad data")
+TornTail(d) ==
+  \E c \in Chunks : d.exists[c] /\ Len(d.data[c]) > 0 /\
+     \E o \in 0..(Len(d.data[c]) - 1) :
+        LET b == d.data[c][o + 1] IN
+        b.rid # 0 /\ b.i = 0 /\ o + recs[b.rid].nblk > Len(d.data[c]) /\
+        (\A j \in (o + 1)..Len(d.data[c]) : d.data[c][j] = [rid |-> b.rid, i |-> j - 1 - o])
+
+\* what a read of k returns right after recovery r (no write buffer yet)
+ReadRecovered(r, k) ==
+  LET sl == IF Has(r.ctab, k) THEN r.ctab[k] ELSE r.tree[HashOf(k)] IN
+  IF sl = NoSlot THEN [res |-> "miss", rid |-> 0, ver |-> 0]
+  ELSE LET rid == IF r.disk.exists[sl.c] THEN ReadAtSeq(r.disk.data[sl.c], sl.off) ELSE 0 IN
+       IF rid = 0 THEN [res |-> "err", rid |-> 0, ver |-> 0]
+       ELSE IF recs[rid].key # k THEN [res |-> "err", rid |-> rid, ver |-> 0]
+       ELSE [res |-> "hit", rid |-> rid, ver |-> sl.ver]
+
+\* known finding F11: the index of k points into a chunk whose hint file claims more data than the file has
+HintAheadErr(r, k) ==
+  LET sl == IF Has(r.ctab, k) THEN r.ctab[k] ELSE r.tree[HashOf(k)] IN
+  sl # NoSlot /\ ReadRecovered(r, k).res = "err" /\
+  \E i \in 1..Len(r.disk.hintf[sl.c]) : r.disk.hintf[sl.c][i] # NoFile /\ r.disk.hintf[sl.c][i].datasize > Len(r.disk.data[sl.c])
+
+\* C06: served value is a real write of k, at least as new as the durable one
+AllowedAfterKill(k, g) ==
+  LET W == {i \in 1..gh.nrecsAt : recs[i].key = k}
+      A == {i \in W : i >= gh.durAt[k]}
+  IN IF g.res = "hit" /\ g.ver > 0 THEN g.rid \in A
+     ELSE IF g.res = "miss" \/ (g.res = "hit" /\ g.ver < 0) THEN gh.durAt[k] = 0 \/ \E i \in A : recs[i].ver < 0
+     ELSE FALSE
+
+Open ==
+  /\ ~up /\ ~TornTail(disk)        \* a torn tail = explicit refusal to start (allowed by C06)
+  /\ LET r == Recover(disk) IN
+     /\ up' = TRUE /\ head' = r.head /\ chk' = r.chk /\ tree' = r.tree /\ hm' = r.hm
+     /\ disk' = r.disk /\ ctab' = r.ctab /\ bk' = r.bk
+     \* C02: "versions of deleted keys are not compared (tombstones are intentionally dropped
+     \* when the tree is rebuilt)": for a DELETED key the reference adopts whatever version
+     \* memory the recovered tree kept (the dump keeps tombstone slots, a rebuild forgets them).
+     /\ ref' = [k \in Keys |->
+                 IF ref[k].ver >= 0
+                   THEN (IF k \in gh.treeOnly /\ r.tree[HashOf(k)].ver > 0
+                           THEN [ref[k] EXCEPT !.ver = r.tree[HashOf(k)].ver] ELSE ref[k])
+                 ELSE LET sl == r.tree[HashOf(k)] IN
+                      IF sl = NoSlot THEN NoRef
+                      ELSE IF sl.ver < 0 THEN [ref[k] EXCEPT !.ver = sl.ver] ELSE ref[k]]
+     /\ gh' = [gh EXCEPT !.treeOnly = {}, !.crashed = FALSE,
+                         !.c06bad = @ \/ (gh.crashed /\ ~gh.gcAt /\ \E k \in Keys : ~Colliding(k) /\ ~(Mut("KF11") /\ HintAheadErr(r, k)) /\
+                                                ~AllowedAfterKill(k, ReadRecovered(r, k))),
+                         !.c07bad = @ \/ (gh.crashed /\ gh.gcAt /\ \E k \in Keys : ~Colliding(k) /\
+                                                ~(Mut("KF6") /\ gc.begin = 0 /\ gh.refAt[k].ver <= 0 /\ ReadRecovered(r, k).res = "hit") /\
+                                                ~Agrees(k, ReadRecovered(r, k), gh.refAt[k], 2))]
+  /\ UNCHANGED <<conf, gc, lock, pc, loc, recs>>
+
+\* between Exit and Open the environment may delete index files: they are caches (C02)
+RmTreeDumps == /\ ~up /\ disk.treef # {} /\ disk' = [disk EXCEPT !.treef = {}]
+               /\ UNCHANGED <<conf, up, head, chk, tree, hm, ctab, bk, gc, lock, pc, loc, recs, ref, gh>>
+RmHint(c, j) == /\ ~up /\ Len(disk.hintf[c]) > j /\ disk.hintf[c][j + 1] # NoFile
+                /\ disk' = [disk EXCEPT !.hintf[c][j + 1] = NoFile]
+                /\ UNCHANGED <<conf, up, head, chk, tree, hm, ctab, bk, gc, lock, pc, loc, recs, ref, gh>>
+
+-----------------------------------------------------------------------------
 (* Scheduling.  A "start" step begins an operation or lets a spawned       *)
 (* goroutine run; sequential configurations allow it only when nothing     *)
 (* else is in progress (run to completion), free ones always.              *)
@@ -1002,23 +1094,13 @@ SpecRead(k) ==
                  IF rb.rid = 0 THEN [res |-> "err", rid |-> 0, ver |-> 0]
                  ELSE [res |-> "hit", rid |-> rb.rid, ver |-> recs[rb.rid].ver]
 
-\* does a read result r agree with the reference entry e of key k?
-\* level 1: value, flags, liveness AND version (C01)
-\* level 2: version only for live keys (C02: tombstones may vanish on rebuild)
-\* level 3: value, flags, liveness only (C13: colliding keys)
-Agrees(k, r, e, level) ==
-  IF e.ver = 0 THEN r.res = "miss"
-  ELSE IF e.ver < 0
-    THEN r.res = "miss" \/ (r.res = "hit" /\ r.ver < 0 /\ recs[r.rid].key = k /\ (level > 1 \/ r.ver = e.ver))
-  ELSE /\ r.res = "hit" /\ r.ver > 0
-       /\ recs[r.rid].key = k /\ recs[r.rid].val = e.val /\ recs[r.rid].flag = e.flag
-       /\ (level = 3 \/ r.ver = e.ver)
-
 C01_ReadMap == (up /\ Quiet) => \A k \in Keys : ~Colliding(k) => Agrees(k, SpecRead(k), ref[k], 1)
 C13_ReadMap == (up /\ Quiet) => \A k \in Keys : Colliding(k) => Agrees(k, SpecRead(k), ref[k], 3)
 NoFatal     == ~gh.fatal
 C04_Distinct == ~gh.dup /\ ~gh.stale
 C02_NoLostAck == ~gh.lostAck
+C06_Recovered == ~gh.c06bad
+C07_Recovered == ~gh.c07bad
 C18_OnlyCurrent == ~gh.c18bad
 C18_Once == ~gh.c18dup
 
